@@ -9,7 +9,7 @@ Require Import Zrs.model.HufDec Zrs.model.LitEnc Zrs.proofs.C02_Concrete.
 Require Import Zrs.model.SeqNorm Zrs.proofs.C02_O1.
 Require Import Zrs.proofs.C02_HufSide Zrs.proofs.C02_O2Table.
 Require Import Zrs.model.HufEnc Zrs.proofs.C13_Agree Zrs.proofs.C02_O2Huffman Zrs.proofs.C02_O2Complete.
-Require Import Permutation Zrs.proofs.C02_O2Shape.
+Require Import Permutation Zrs.proofs.C02_O2Shape Zrs.proofs.C02_O2Treeless.
 Open Scope Z_scope.
 
 (** level Uncompressed: every input, every fragmentation of the source reads, every block size up to 128 KiB, every
@@ -282,6 +282,20 @@ Theorem C02_huffman_literals_meet_O2_for_every_assignment_of_the_shape : forall 
       exists t, lit_ok h lits (huf_lit_header 2 (zlen lits) (zlen payload)) payload t.
 Proof. exact huffman_section_for_every_assignment_of_the_shape. Qed.
 
+(** ... and when the compressor re-uses the table of an earlier block (treeless section): the streams are coded with its code
+    for the earlier weights, the decoder still holds the table it built from them, and reads back exactly the literals *)
+Theorem C02_treeless_huffman_literals_meet_O2 : forall ht0 src t used,
+  huf_build_decoder ht0 src = ROk (t, used) -> Forall (fun w => 0 <= w) (ht_weights t) -> (length (ht_weights t) <= 255)%nat ->
+  exists lw codes, enc_build_from_weights (ht_weights t ++ [lw]) = ROk codes /\
+    forall lits,
+      Forall (fun s => 0 <= s <= Z.of_nat (length (ht_weights t)) /\ 0 < nth (Z.to_nat s) (ht_weights t ++ [lw]) 0) lits ->
+      16 <= Z.of_nat (length lits) <= 131072 ->
+      let payload := huf4_bytes (code_fn codes) lits in
+      zlen payload < zlen lits ->
+      lit_ok t lits (huf_lit_header 3 (zlen lits) (zlen payload)) payload t.
+Proof. exact treeless_section_meets_O2. Qed.
+
+Print Assumptions C02_treeless_huffman_literals_meet_O2.
 Print Assumptions C02_huffman_literals_meet_O2_for_every_assignment_of_the_shape.
 Print Assumptions C02_huffman_literals_meet_O2_for_every_complete_code.
 Print Assumptions C02_huffman_literals_meet_O2_for_any_weights.
